@@ -69,7 +69,7 @@ def run_case(item) -> dict:
         out["missing"] = True
         return out
     for p in nt.prods[pidx:pidx + 1]:
-        rec = dict(label=p.label, note=p.note, runs=0, ok=0, fails=[], term=[], coord=[], notes=[], samples=[])
+        rec = dict(label=p.label, note=p.note, runs=0, ok=0, fails=[], term=[], coord=[], scope=[], cost=[], notes=[], samples=[])
         fols = {id(fs): follows_for(gx, method, nt_name, p) for fs in [p]}[id(p)]
         per = max(300, BUDGET[_TIER] // max(1, len(p.flat) * len(fols)))
         for flat, shape in p.flat:
@@ -95,19 +95,133 @@ def run_case(item) -> dict:
                         try:
                             exp = gx.expected_of(oc.run)
                             d = gx.ast_diff(oc.result, exp, oc.run.allowed_coords())
-                        except (GXM.NeedChoice, GXM.NeedExpand):
+                        except (GXM.NeedChoice, GXM.NeedExpand, GXM.NeedVariant):
                             d = None
                         except Exception as e:  # spec-side failure: undecided, not a violation
                             rec["notes"].append(f"spec build failed on `{text}`: {type(e).__name__}: {e}")
                             d = None
+                        if not d:
+                            d = shared_node_diff(gx, oc)
                         if d:
                             (rec["coord"] if ".coord" in d.split(":")[0] else rec["term"]).append((d, text, list(fol)))
+                        cd = cost_diff(gx, method, oc)
+                        if cd:
+                            rec["cost"].append((cd, text, list(fol)))
+                        sd = scope_diff(gx, method, oc, list(fol))
+                        if sd:
+                            rec["scope"].append((sd, text, list(fol)))
                     else:
                         rec["fails"].append((oc.kind, oc.detail, text, list(fol), witness_text(gx, oc.run)))
         out["prods"].append(rec)
         out["runs"] += rec["runs"]
     out["time"] = time.time() - t0
     return out
+
+
+# --------------------------------------------------------------------------------------
+# C04: which names a production must enter into the scope stack (C 6.2.1: ordinary identifiers only)
+# --------------------------------------------------------------------------------------
+DECLARING = {"_parse_declaration", "_parse_decl_body", "_parse_decl_body_with_spec", "_parse_external_declaration"}
+
+
+def expected_registrations(gx, method, oc, follow):
+    """[(name, is_typedef)] that the invocation must register, in order; derived from the returned AST, whose shape the
+    term obligations tie to the grammar.  Members, tags, labels and prototype-only parameters never register."""
+    A = gx.c_ast
+    res = oc.result
+    if method in DECLARING:
+        out = []
+        for d in res if isinstance(res, list) else []:
+            if isinstance(d, A.Typedef) and d.name:
+                out.append((d.name, True))
+            elif isinstance(d, A.Decl) and d.name:
+                out.append((d.name, False))
+            elif isinstance(d, A.FuncDef) and d.decl.name:
+                out.append((d.decl.name, False))
+        return out
+    if method == "_parse_enumerator":
+        return [(res.name, False)]
+    if method == "_parse_function_decl":
+        # parameters of a function DEFINITION (declarator followed by '{') become ordinary identifiers of the body
+        if follow and follow[0] == "LBRACE" and res.args is not None:
+            out = []
+            for prm in res.args.params:
+                if isinstance(prm, A.EllipsisParam):
+                    break
+                nm = getattr(prm, "name", None)
+                if nm:
+                    out.append((nm, False))
+            return out
+        return []
+    return []
+
+
+_SEEN_NODES = {}
+
+
+def shared_node_diff(gx, oc):
+    """Every node a parse method builds is fresh: no node of a result may also be part of the result of another
+    invocation (C03: each declared entity gets its OWN node; C12: ASTs of different calls share no nodes)."""
+    A = gx.c_ast
+    given = set()
+
+    def collect(v, acc, depth=0):
+        if depth > 12 or id(v) in acc:
+            return
+        if isinstance(v, A.Node):
+            acc[id(v)] = v
+            if not isinstance(v, gx.Opaque):
+                for s in type(v).__slots__:
+                    if s not in ("coord", "__weakref__"):
+                        collect(getattr(v, s), acc, depth + 1)
+        elif isinstance(v, (list, tuple)):
+            for x in v:
+                collect(x, acc, depth + 1)
+        elif isinstance(v, dict):
+            for x in v.values():
+                collect(x, acc, depth + 1)
+    handed = {}
+    for (_, n, _, _) in oc.run.stub_calls:
+        collect(gx.value_of(n), handed)
+    for x in oc.run.applied:
+        collect(x, handed)
+    collect(list(oc.run.args) + list(oc.run.kwargs.values()), handed)
+    mine = {}
+    collect(oc.result, mine)
+    if len(_SEEN_NODES) > 300000:
+        _SEEN_NODES.clear()
+    for k, v in mine.items():
+        if k in handed or isinstance(v, gx.Opaque):
+            continue
+        if k in _SEEN_NODES and _SEEN_NODES[k][0] is v and _SEEN_NODES[k][1] is not oc.run:
+            return f"result: the {type(v).__name__} node is the very object returned inside the result of an earlier invocation (shared node)"
+        _SEEN_NODES[k] = (v, oc.run)
+    return None
+
+
+MAX_UNDONE_OWN = 2  # a speculative look-ahead may take back at most this many tokens of its own
+
+
+def cost_diff(gx, method, oc):
+    """C16: speculation must not throw away unbounded work.  A reset may undo a bounded number of the method's own
+    tokens, never a construct parsed by a callee (that construct would be parsed again: work doubles per nesting level)
+    and never an unbounded scan."""
+    worst = None
+    for (m, cur, stubs, own) in oc.run.undone:
+        if stubs:
+            return (f"reset from token {cur} back to {m} throws away callee work {stubs}: the construct is parsed again "
+                    f"(cost doubles with every nesting level)")
+        if own > MAX_UNDONE_OWN:
+            worst = f"reset from token {cur} back to {m} throws away a scan of {own} tokens (grows with the construct: quadratic under nesting)"
+    return worst
+
+
+def scope_diff(gx, method, oc, follow):
+    want = expected_registrations(gx, method, oc, follow)
+    got = list(oc.run.registrations)
+    if got != want:
+        return f"names entered into the scope stack: {got}; C scoping requires {want}"
+    return None
 
 
 # --------------------------------------------------------------------------------------
@@ -255,6 +369,10 @@ def to_obligations(gx, recs: List[dict], families: List[str], prefix: str) -> co
                     bad = p["term"]
                 elif fam == "coord":
                     bad = p["coord"]
+                elif fam == "scope":
+                    bad = p["scope"]
+                elif fam == "cost":
+                    bad = p["cost"]
                 else:
                     raise ValueError(fam)
                 name = f"{prefix}/{fam}/{base}"
